@@ -167,6 +167,95 @@ def history_features(fb, f):
     return out
 
 
+
+def audit_rules(rep, fb):
+    """R05.8 - R05.10 (audit round)"""
+    rep.rule('R05.8', 'annotations that are read by index exist: an attribute that ChartToC::prepare writes only for elements that have some other attribute (targetBools only with a target) is read by the back-ends only under a test of its presence (indexing the empty string of a missing attribute is out of bounds; with libstdc++ it reads the previous value\'s bytes)')
+    rep.rule('R05.9', 'preprocessing is linear in the nesting depth: each resortStates implementation (both engines, ChartToC) recurses into a child once, not once per sorting pass')
+    rep.rule('R05.10', 'element kinds are recognised in prefixed documents too: the generators compare the local name of an element (or the prefixed name built with XML_PREFIX), never the qualified tag name with a bare literal')
+    # R05.8: conditionally written *Bools attributes
+    prep = next((f for f in fb.funcs.values() if f.q == 'uscxml::ChartToC::prepare'), None)
+    if prep is None:
+        raise AnalysisBroken('ChartToC::prepare not found')
+    cond_written = {}
+    for n in prep.walk():
+        if n['k'] == 'CXXMemberCallExpr' and n.get('callee', {}).get('q', '').split('::')[-1] == 'setAttribute':
+            lits = [x.get('str') for x in sub(n) if x['k'] == 'StringLiteral' and (x.get('str') or '').endswith('Bools')]
+            if not lits:
+                continue
+            guards = [a_ for a_ in prep.ancestors(n) if a_['k'] == 'IfStmt' and any(x.get('callee', {}).get('q', '').split('::')[-1] == 'hasAttribute' for x in sub(a_['c'][0]))]
+            if guards:
+                cond_written[lits[0]] = n
+    nreads = 0
+    for f in fb.funcs.values():
+        if not f.file.startswith('src/uscxml/transform/') or not f.d.get('cfg'):
+            continue
+        for n in f.walk():
+            if n['k'] != 'CXXOperatorCallExpr' or n.get('op') != '[]':
+                continue
+            if len(n.get('c', [])) < 2:
+                continue
+            srcs = [n['c'][1]]
+            b_ = strip(n['c'][1])
+            if b_ is not None and b_['k'] == 'DeclRefExpr' and 'lid' in b_.get('ref', {}):
+                # a local holding the attribute's value:  std::string targetSet = ATTR(transition, "targetBools");  targetSet[i]
+                srcs += [d_['init'] for x in f.walk() if x['k'] == 'DeclStmt' for d_ in x.get('decls', []) if d_['lid'] == b_['ref']['lid'] and 'init' in d_]
+            lits = [x.get('str') for s_ in srcs for x in sub(s_) if x['k'] == 'StringLiteral']
+            hit = [l for l in lits if l in cond_written]
+            if not hit or not any(x.get('callee', {}).get('q', '').split('::')[-1] == 'getAttribute' for s_ in srcs for x in sub(s_)):
+                continue
+            nreads += 1
+            guarded = any(a_['k'] == 'IfStmt' and any(x.get('callee', {}).get('q', '').split('::')[-1] == 'hasAttribute' for x in sub(a_['c'][0])) and any(
+                x['k'] == 'StringLiteral' and x.get('str') in (hit[0], hit[0][:-5]) for x in sub(a_['c'][0])) for a_ in f.ancestors(n)) or any(
+                a_['k'] == 'IfStmt' and any(x.get('callee', {}).get('q', '').split('::')[-1] in ('size', 'length', 'empty') for x in sub(a_['c'][0])) for a_ in f.ancestors(n))
+            rep.check(guarded, 'R05.8', '%s|%s[..]#%d' % (f.q.split('::')[-1], hit[0], n['loc'][1]), locstr(n), 'the annotation %s (written by prepare only for elements with a `%s` attribute) is indexed %s' % (
+                hit[0], hit[0][:-5], 'under a presence test' if guarded else 'WITHOUT a presence test: for a targetless transition the empty string is indexed out of range and the emitted equation picks up the previous transition\'s targets'))
+    if cond_written:
+        rep.minimum('R05.8', nreads, 1, 'indexed reads of conditionally written annotations')
+    else:
+        rep.ok('R05.8', 'prepare', 'every *Bools annotation is written unconditionally')
+    # R05.9
+    fbe = facts.FactBase(['src/uscxml/interpreter/LargeMicroStep.cpp', 'src/uscxml/interpreter/FastMicroStep.cpp'])
+    nrs = 0
+    for fbx, q in ((fb, 'uscxml::ChartToC::resortStates'), (fbe, 'uscxml::LargeMicroStep::resortStates'), (fbe, 'uscxml::FastMicroStep::resortStates')):
+        f = fbx.fn(q)
+        nrs += 1
+        rec = [n for n in f.walk() if n['k'] in ('CallExpr', 'CXXMemberCallExpr') and n.get('callee', {}).get('q', '') == q and any(a_['k'] in ('WhileStmt', 'ForStmt', 'DoStmt') for a_ in f.ancestors(n))]
+        rep.check(len(rec) <= 1, 'R05.9', q.split('::')[1] + '::resortStates', locstr(rec[1]) if len(rec) > 1 else f.where(), '%s recurses into each child %d time(s)%s' % (q.split('::')[1] + '::resortStates', len(rec),
+                  '' if len(rec) <= 1 else ': %d^depth calls - a chain of 17 nested states does not finish, for any of the three back-ends' % len(rec)))
+    # R05.10
+    nkind = 0
+    for f in fb.funcs.values():
+        if not f.file.startswith('src/uscxml/transform/') or not f.d.get('body'):
+            continue
+        for n in f.walk():
+            q = n.get('callee', {}).get('q', '')
+            is_cmp = (n['k'] == 'CallExpr' and q.split('::')[-1] == 'iequals') or (n['k'] == 'CXXOperatorCallExpr' and n.get('op') == '==')
+            if not is_cmp:
+                continue
+            lits = [x.get('str') for x in sub(n) if x['k'] == 'StringLiteral']
+            kinds = [l for l in lits if l in ('initial', 'history', 'state', 'parallel', 'final', 'transition', 'scxml')]
+            if not kinds:
+                continue
+            uses_tag = any(x.get('callee', {}).get('q', '').split('::')[-1] == 'getTagName' for x in sub(n))
+            if not uses_tag:
+                continue
+            nkind += 1
+            prefixed = any(x.get('callee', {}).get('q', '').endswith('::str') or x['k'] == 'DeclRefExpr' and 'prefix' in (x.get('ref', {}).get('name') or '').lower() or x['k'] == 'MemberExpr' and 'prefix' in (x['ref'].get('name') or '').lower() for x in sub(n))
+            rep.check(prefixed, 'R05.10', '%s|"%s"#%d' % (f.q.split('::')[-1], kinds[0], n['loc'][1]), locstr(n), 'the element kind "%s" is recognised by comparing the qualified tag name with %s' % (kinds[0],
+                      'the prefixed literal' if prefixed else 'the BARE literal: in a document that uses a namespace prefix (<sc:initial>) the element is taken for an ordinary state, C and Promela then disagree about its transition'))
+    if not nkind:
+        rep.ok('R05.10', 'generators', 'no element kind is recognised by its qualified tag name')
+    # R05.11 the transition domain works on effective targets
+    rep.rule('R05.11', 'a history target stands for the states it will restore: getTransitionDomain (and with it exit set and conflicts) dereferences history pseudo-states among the targets (Appendix D getEffectiveTargetStates) instead of putting the <history> element itself into the LCCA')
+    fbp = facts.FactBase(['src/uscxml/util/Predicates.cpp'])
+    gtd = fbp.fn('uscxml::getTransitionDomain')
+    helpers = [gtd] + [fbp.funcs[n['callee']['m']] for n in gtd.walk() if n.get('callee', {}).get('m') in fbp.funcs]
+    aware = any(x.get('callee', {}).get('q', '').split('::')[-1] in ('isHistory', 'getEffectiveTargetStates') for h in helpers for x in h.walk())
+    rep.check(aware, 'R05.11', 'Predicates.cpp::getTransitionDomain', gtd.where(), 'the transition domain is computed from %s' % ('the effective targets' if aware else
+              'the RAW targets: for a1 -e-> h (deep history of a\'s parent P, a1 inside a) the <history> element enters the LCCA, the exit set contains a itself although the recommendation exits a1 only; both engines share the deviation'))
+
+
 def run(rep, tier):
     rep.rule('R05.1', 'single writer, shared readers: the DOM annotations (orders, parent, child/ancestor/completion/target/exit-set/conflict bit strings) are written only by ChartToC::prepare/setStateCompletion/setHistoryCompletion; a back-end that reads a relation into a local uses it (a relation read and then ignored is computed some other way)')
     rep.rule('R05.2', 'loop-index consistency: inside a loop over the states (transitions) a relation bit string is indexed with the order attribute of an element that varies with that loop; a loop-invariant filter never selects anything')
@@ -294,3 +383,5 @@ def run(rep, tier):
     check_history_completion(rep, 'R05.6', fb)
     # ---- R05.7
     check_exit_set_vocabulary(rep, 'R05.7', fb)
+    # ---- R05.8 .. R05.10
+    audit_rules(rep, fb)
